@@ -121,7 +121,10 @@ Verdict(e) ==
       comments == IF e.s1.kind = "error" THEN ""
                   ELSE LET f == RecDiff(CommentFields, OnlyComments(m), OnlyComments(e.s1)) IN
                        IF f = "" THEN ""
+                       \* F-C02f exactly: every column comment is LOST (written above the column, where the grammar skips it);
+                       \* a column comment that comes back changed, or on another column, is not the known finding
                        ELSE IF f = "cc" /\ RecDiff(CommentFields, [OnlyComments(m) EXCEPT !.cc = <<>>], [OnlyComments(e.s1) EXCEPT !.cc = <<>>]) = ""
+                               /\ \A t \in DOMAIN OnlyComments(e.s1).cc : \A k \in DOMAIN OnlyComments(e.s1).cc[t] : OnlyComments(e.s1).cc[t][k] = ""
                             THEN "dev:F-C02f"
                        ELSE "comment lost or changed: " \o f
       props == IF e.s1.kind = "error" THEN "re-parse fails with " \o e.s1.class
